@@ -31,6 +31,9 @@ type c08Msg struct {
 	// terminalFor: this message is the work-done of that run (a success result)
 	terminalFor string
 	start, end  int64 // offsets in the server->client stream
+	// held: the server keeps this message back until nothing else can happen (every goroutine blocked, nothing
+	// paused) - a slow step, in logical time
+	held bool
 }
 
 type c08Transcript struct {
@@ -174,6 +177,7 @@ func c08Transcripts() []c08Transcript {
 		t.msgs = append(t.msgs, failAll)
 		t.expectID["a"], t.expectID["b"] = "", ""
 		addDone(t, c)
+		t.msgs[len(t.msgs)-1].held = true // the later run is slow: it is still pending when the client has dealt with the error
 	}
 	{ // the same error as the last thing the plugin says before the client closes (the plugin lingers: it does not
 		// end its output by itself)
@@ -293,6 +297,8 @@ func c08Replay(t *c08Transcript, f c08Fault, s2cMode rig.Mode, chunkSeed uint64)
 		rig.Y.Arm(c08Sched, c08SchedLifo)
 	}
 	var done atomic.Int32
+	var heldWaiting atomic.Int32
+	heldRelease := make(chan struct{}, 8)
 	var mu sync.Mutex
 	setPanic := func(who string, p any) {
 		mu.Lock()
@@ -323,6 +329,10 @@ func c08Replay(t *c08Transcript, f c08Fault, s2cMode rig.Mode, chunkSeed uint64)
 				// the client->server stream broke: a server sees end of input, finishes and closes its output
 				_ = s2c.CloseWrite()
 				return
+			}
+			if m.held {
+				heldWaiting.Add(1)
+				<-heldRelease
 			}
 			if _, err := s2c.Write(m.bytes); err != nil {
 				return
@@ -400,10 +410,22 @@ func c08Replay(t *c08Transcript, f c08Fault, s2cMode rig.Mode, chunkSeed uint64)
 		res.closeErr = cli.Close()
 		res.closeReturned = true
 	}()
-	res.monitor = rig.Monitor(func() bool { return done.Load() == 1 }, nil, 20*time.Second)
+	res.monitor = rig.Monitor(func() bool { return done.Load() == 1 }, func(*rig.Snapshot, rig.Verdict) bool {
+		// paused goroutines go on first; only then does the server let a held message go
+		if at, ok := rig.Y.ReleaseOne(); ok {
+			res.released = append(res.released, at)
+			return true
+		}
+		if heldWaiting.Load() > 0 {
+			heldWaiting.Add(-1)
+			heldRelease <- struct{}{}
+			return true
+		}
+		return false
+	}, 20*time.Second)
 	if armed {
 		res.hits, _, _, res.pauses = rig.Y.Stats()
-		res.released = res.monitor.Released
+		res.released = append(res.released, res.monitor.Released...)
 		rig.Y.Disarm()
 	}
 	mu.Lock()
